@@ -72,6 +72,15 @@ def run(ctx):
             for prog in ('A0L0X/A3A5', 'A0L0X/U3', 'A0L0X/R5', 'A4L4X/A6', 'A0A5L5X/A3', 'A0L0P2/A3', 'A0L0X/L0'):
                 for k in range(0, 90 if ctx.quick() else 140):
                     cases.append((prog, '0a' * k + '}1}1'))
+        if name == 'scen_lfhtx':
+            # a replace / add_replace whose old node is removed (or replaced) by another thread between its look-up and its cmpxchg - the remover possibly frozen
+            # after the logical removal - must give up (-ENOENT / retry) within its bound when it then runs alone
+            for prog, npre in (('A0L0P2/L0X', 2), ('A0L0P2/L0P7', 2), ('A0A3L0P2/L0X', 3)):
+                for j in range(0, 44 if ctx.quick() else 80):
+                    cases.append((prog, '>0' * npre + '1b' * j + '}0'))
+            for prog in ('A0R2/L0X', 'A0R2/L0P7'):
+                for k in range(0, 60 if ctx.quick() else 100, 2 if ctx.quick() else 1):
+                    cases.append((prog, '>0' + '0a' * k + '>1>1' + '}0'))
         while len(cases) < n + len(progs) * 40:
             prog = ctx.rng.choice(progs); th = [str(i) for i in range(prog.count('/') + 1)]; v = ctx.rng.choice(th)
             cases.append((prog, bursty(ctx.rng, th, lo=5, hi=120, means=(1, 2, 5, 12)) + '}' + v + '}' + v))
